@@ -247,9 +247,17 @@ func (m *vmenu) build(parent []int, subset []int8, alts []int) *docSpec {
 
 // ---- horizontal menu ---------------------------------------------------------------------------
 
+// hMargins: 150px is the margin that decides the pre-test of §10.3.3 on its own ("border +
+// padding + width plus any of margin-left or margin-right that are not auto is larger than the
+// containing block"): with width:50px in the 200px container the sum is exactly the containing
+// width when the box has no padding/border (or box-sizing:border-box) and above it with any
+// padding/border, in the 120px container and with width:50%, while width alone always fits;
+// 7px, -3px and 10% keep the sum below. Every value is taken by both margins, so the space holds
+// the equation with no, one (either side) and two auto margins below, at and above the
+// containing width, and the over-constrained cases.
 var (
 	hWidths  = []dim{auto, px(50), pct(50), px(200)}
-	hMargins = []dim{zero, auto, px(7), px(-3), pct(10)}
+	hMargins = []dim{zero, auto, px(7), px(-3), pct(10), px(150)}
 	hMin     = []dim{none, px(30), px(80)}
 	hMax     = []dim{none, px(30), px(80)}
 )
@@ -334,6 +342,11 @@ var crossMenu = []crossDev{
 	{"max-width:80px", -1, func(b *boxSpec) { b.maxw = px(80) }},
 	{"box-sizing:border-box", -1, func(b *boxSpec) { b.borderBox = true }},
 	{"width:50px;margin:0 auto", -1, func(b *boxSpec) { b.w, b.ml, b.mr = px(50), auto, auto }},
+	// one auto margin, and the specified one alone makes the sum exceed the containing width
+	// (§10.3.3: the auto margin is treated as zero, margin-right gives way)
+	{"width:60px;margin-left:auto;margin-right:150px", -1, func(b *boxSpec) { b.w, b.ml, b.mr = px(60), auto, px(150) }},
+	{"width:60px;margin-left:150px;margin-right:auto", -1, func(b *boxSpec) { b.w, b.ml, b.mr = px(60), px(150), auto }},
+	{"width:60px;margin-left:150px;margin-right:150px", -1, func(b *boxSpec) { b.w, b.ml, b.mr = px(60), px(150), px(150) }},
 	{"margin-top:10%", pMT, func(b *boxSpec) { b.mt = pct(10) }},
 	{"margin-bottom:10%", pMB, func(b *boxSpec) { b.mb = pct(10) }},
 	{"margin-top:auto", pMT, func(b *boxSpec) { b.mt = auto }},
